@@ -63,7 +63,7 @@ func (c *Ctx) moduleCallees(root *load.FuncInfo, samePkgOnly bool) []*load.FuncI
 func c03(c *Ctx) {
 	r := c.R
 	r.Explanation = "Structural completeness of IRCServer.Marshal/Unmarshal: every field of every replicated Go struct (closure of IRCServer's field types) is read by the writer and written by the reader, every exported field of every snapshot protobuf message is set by the writer and read by the reader, each Go field travels through a protobuf field that the reader maps back to the same Go field, converter calls come in listed inverse pairs, and the indexes rebuilt on load (nicks, serverSessions) are rebuilt under the guards used in live operation. Decides the shape of the codec, not behavioural equality of the loaded instance."
-	r.Rules = []string{"C03.K1 go-field coverage", "C03.K2 pb-field coverage", "C03.K3 correspondence + inverse converters", "C03.K4 index rebuild guards", "C03.K5 mode-array loops", "C03.K8 error discipline of the snapshot codec", "C03.K9 a restored record is what the snapshot says"}
+	r.Rules = []string{"C03.K1 go-field coverage", "C03.K2 pb-field coverage", "C03.K3 correspondence + inverse converters", "C03.K4 index rebuild guards", "C03.K5 mode-array loops", "C03.K8 error discipline of the snapshot codec", "C03.K9 a restored record is what the snapshot says", "C03.K10 nothing restored comes from defaults", "C03.K11 every record has slices of its own"}
 	r.Assumptions = []string{"protobuf wire encoding itself is lossless for the generated types", "time values lie in the UnixNano range"}
 
 	marshal := c.MustFunc("ircserver.(*IRCServer).Marshal")
@@ -415,6 +415,34 @@ func c03(c *Ctx) {
 	c.c03TriState(marshal, unmarshal)
 	c.c03NoFilter(marshal, unmarshal)
 	c.c03Restore(unmarshal)
+	c.c03OwnSlices(marshal)
+	// K10 nothing that is restored comes from defaults: Unmarshal, and what it calls in the module, does not read the
+	// package-level default configuration. A decoder that "falls back to the default when the snapshot has none" restores
+	// 10m for a stored 0 (throttling and expiry differ between the replica that restored and the ones that did not)
+	if unmarshal != nil {
+		nU := 0
+		for _, fi := range c.moduleCallees(unmarshal, false) {
+			if fi.Body() == nil {
+				continue
+			}
+			nU++
+			fin := fi.Info()
+			ast.Inspect(fi.Body(), func(n ast.Node) bool {
+				id, ok := n.(*ast.Ident)
+				if !ok {
+					return true
+				}
+				v, ok := fin.Uses[id].(*types.Var)
+				if !ok || v.IsField() || v.Pkg() == nil || v.Parent() != v.Pkg().Scope() || load.ShortPkg(v.Pkg().Path()) != "config" {
+					return true
+				}
+				r.Fail("C03.K10", fi.Name(), "reads the package-level "+v.Name()+" while restoring", c.P.Pos(id.Pos()),
+					"the restore consults config."+v.Name()+": a value that was stored is replaced by (or mixed with) a default — the restored state is not the saved one")
+				return true
+			})
+		}
+		r.Check(nU > 0, "C03.K10", unmarshal.Name(), "restore takes nothing from the default configuration", c.P.Pos(unmarshal.Node().Pos()), itoa(nU)+" function(s) inspected", "Unmarshal not found")
+	}
 }
 
 // c03TriState (K6): where the reader special-cases an enum's zero value (legacy "unset" inference), the writer never emits it.
@@ -1432,4 +1460,98 @@ func (c *Ctx) c03Restore(unmarshal *load.FuncInfo) {
 	}
 	c.lengthDiscipline("C03.K9", unmarshal, nil, "after save + load the state holds phantom records (an operator without a name, a service with the empty password, an empty ban)")
 	r.Extra["restore_calls_on_records"] = nCalls
+}
+
+// c03OwnSlices (K11): every record of the snapshot gets slices of its own. The pb records are only encoded when the whole
+// message is marshalled, after all loops: a scratch slice that is re-sliced to length zero and filled again for the next
+// session makes all records share one backing array, and every session is saved with the last one's channels, invitations
+// and modes. A slice-valued variable that is stored into a pb record inside a loop is declared inside that loop — and if it
+// is a copy of another variable, so is that one.
+func (c *Ctx) c03OwnSlices(marshal *load.FuncInfo) {
+	if marshal == nil || marshal.Body() == nil {
+		return
+	}
+	r := c.R
+	info := marshal.Info()
+	var loops []ast.Stmt
+	n := 0
+	isPB := func(t types.Type) bool {
+		nm := astx.NamedOf(t)
+		return nm != nil && nm.Obj().Pkg() != nil && nm.Obj().Pkg().Path() == pathProto
+	}
+	fresh := func(e ast.Expr, loop ast.Stmt) (bool, string) {
+		for depth := 0; depth < 3; depth++ {
+			id, ok := ast.Unparen(e).(*ast.Ident)
+			if !ok {
+				return true, "" // a call result, a literal, a field of the state
+			}
+			o := astx.Obj(info, id)
+			if o == nil {
+				return true, ""
+			}
+			if !(loop.Pos() <= o.Pos() && o.Pos() <= loop.End()) {
+				return false, id.Name
+			}
+			// declared in the loop: as a copy of another variable?
+			next := ast.Expr(nil)
+			for _, d := range defsOf(info, loop, o) {
+				if d == nil {
+					continue
+				}
+				if did, isID := ast.Unparen(d).(*ast.Ident); isID {
+					if _, isSl := info.TypeOf(did).Underlying().(*types.Slice); isSl {
+						next = did
+					}
+				}
+			}
+			if next == nil {
+				return true, ""
+			}
+			e = next
+		}
+		return true, ""
+	}
+	var walk func(nd ast.Node)
+	walk = func(nd ast.Node) {
+		ast.Inspect(nd, func(m ast.Node) bool {
+			switch x := m.(type) {
+			case *ast.FuncLit:
+				return false
+			case *ast.ForStmt:
+				loops = append(loops, x)
+				walk(x.Body)
+				loops = loops[:len(loops)-1]
+				return false
+			case *ast.RangeStmt:
+				loops = append(loops, x)
+				walk(x.Body)
+				loops = loops[:len(loops)-1]
+				return false
+			case *ast.CompositeLit:
+				if len(loops) == 0 || !isPB(info.TypeOf(x)) {
+					return true
+				}
+				for _, el := range x.Elts {
+					kv, ok := el.(*ast.KeyValueExpr)
+					if !ok {
+						continue
+					}
+					if _, isSl := info.TypeOf(kv.Value).Underlying().(*types.Slice); !isSl {
+						continue
+					}
+					if _, isID := ast.Unparen(kv.Value).(*ast.Ident); !isID {
+						continue
+					}
+					n++
+					ok2, outer := fresh(kv.Value, loops[len(loops)-1])
+					r.Check(ok2, "C03.K11", marshal.Name(), "record field "+astx.Str(kv.Key)+" gets a slice of its own", c.P.Pos(kv.Pos()), "the slice variable is declared inside the loop that builds the record",
+						"the slice stored in "+astx.Str(kv.Key)+" is (a copy of) the variable "+outer+", which is declared outside the loop and refilled for every record: all records share one backing array until the message is encoded, and every one of them is saved with the contents of the last")
+				}
+			}
+			return true
+		})
+	}
+	walk(marshal.Body())
+	r.Floor("C03.K11", 3)
+	_ = n
 }
